@@ -357,8 +357,25 @@ class Runner:
                   "tracked_prior": None if tracked is None else [np.asarray(tracked[0], float).tolist(), float(tracked[1])],
                   "target_azelrng": [[L["az"], L["el"], L["rng"]] for L in looks]}
         # ---------------- the real call
-        ret = s.collectObservations(est, tgt, list(bgs))
-        obs_list, miss_list, b1, t1 = ret
+        # a legal attempt on which the REAL code raises is a violation of the property (the attempt yields
+        # neither an observation nor a miss), never a failure of the harness
+        try:
+            ret = s.collectObservations(est, tgt, list(bgs))
+            obs_list, miss_list, b1, t1 = ret
+        except Exception as ex:  # noqa: BLE001
+            import traceback
+            where = traceback.extract_tb(ex.__traceback__)[-1]
+            inputs["outcome"] = {"exception": repr(ex), "raised_at": f"{where.filename.split('/resonaate/')[-1]}:{where.name}",
+                                 "constraints_primary": vecs[0], "constraints_background": vecs[1:]}
+            self.ctx.violation(f"collect-observations-raises:{type(ex).__name__}",
+                               f"{kind}/{host}: collectObservations raised {ex!r} in {inputs['outcome']['raised_at']} on a "
+                               f"legal attempt (case {tag})", {"inputs": inputs, "record": None})
+            self.stats["raised"] = self.stats.get("raised", 0) + 1
+            self.ctx.case(("raised", kind, host, type(ex).__name__, tag), nontrivial=True)
+            # put the sensor back into the state it had, and keep the bookkeeping of chained taskings
+            sa.updateInfo({"boresight": b0, "time_last_tasked": type(s.time_last_tasked)(t0)})
+            self.after = (b0, t0) if tracked is None else (np.asarray(tracked[0], float), float(tracked[1]))
+            return None
         # ---------------- projection of the outcome
         ids = [a.simulation_id for a in targets]
         obs_n = [0] * len(ids)
@@ -583,7 +600,7 @@ def noise_statistics(run: Runner, rng, want):
                 prior = (np.asarray(L["sez"], float) / np.linalg.norm(L["sez"]), float(sa.time))     # already pointing at it
                 for n in range(NOISE_N):
                     rec = run.attempt(sa, tgt, np.array(tgt.eci_state, float), [], "noise", prior if n == 0 else None)
-                    if rec["out"]["obsN"][0] != 1:
+                    if rec is None or rec["out"]["obsN"][0] != 1:
                         break
                     oc = run.inputs[-1]["outcome"]
                     det = oc["meas"][oc["meas_target"].index(0)]
@@ -815,6 +832,22 @@ def _synthetic_sensor(run: Runner, rng, sa, prim, bgs, scale):   # noqa: C901, P
                 eta = math.asin((k["RE"] + k["ATM"]) / rs) + sgn * d
                 dirv = rotate_from(-site.s[:3], eta, rng)
                 go("limb-tangent", place_dir(site, dirv, rs * math.cos(eta) * rng.choice((0.4, 1.7)), rand_vel(rng)))
+        # -- 8b. the same cone seen by targets at a clearly DIFFERENT geocentric radius than the sensor (the
+        #         limb cone belongs to the OBSERVER): far above and far below, just inside / outside the limb
+        #         cone and inside the atmosphere band between the line-of-sight cone and the limb cone
+        if kind == "optical":
+            eta_los, eta_limb = math.asin(k["RE"] / rs), math.asin((k["RE"] + k["ATM"]) / rs)
+            etas = [eta_limb + d for d in (-2e-2, -5e-3, 6e-3, 1.7e-2)] + [0.5 * (eta_los + eta_limb)]
+            for eta in etas[:3 if scale == 1 else 5] + etas[4:] * (scale == 1):
+                for r_t in (max(rs * math.sin(eta) * 1.03, k["RE"] + 250.0), max(3.0 * rs, 42164.0)):
+                    if 0.6 < r_t / rs < 1.6:
+                        continue
+                    disc = r_t ** 2 - (rs * math.sin(eta)) ** 2
+                    if disc <= 0:
+                        continue
+                    rho = rs * math.cos(eta) + (math.sqrt(disc) if r_t > rs else -math.sqrt(disc))
+                    if rho > 10.0:
+                        go("limb-radius-ratio", place_dir(site, rotate_from(-site.s[:3], eta, rng), rho, rand_vel(rng)))
     else:
         for el in (-2e-3, -1e-5, 0.0, 1e-5, 2e-3, 6e-3):
             for azt in (0.0, 1.6, 3.1, 4.7)[:2 if scale == 1 else 4]:
@@ -1240,5 +1273,6 @@ def replay(ctx: Ctx, rp: dict):
         a.eci_state = np.array(t["eci"], float)
     rec = run_.attempt(sa, tg[0], np.array(inp["estimate_eci"], float), tg[1:len(inp["targets"])], "replay",
                        (np.array(inp["prior_boresight"], float), type(sa.sensors.time_last_tasked)(inp["prior_time_last_tasked"])))
-    ctx.case(("replay", json.dumps(rec["p"], sort_keys=True)))
-    validate(ctx, run_.records, run_.inputs)
+    ctx.case(("replay", json.dumps(rec["p"] if rec else None, sort_keys=True)))
+    if run_.records:
+        validate(ctx, run_.records, run_.inputs)
